@@ -20,21 +20,21 @@
 (*    Entries of --exitcode-suppressions are not members of S.              *)
 (*                                                                         *)
 (* Steps (IOEnv.MODE):                                                      *)
-(*   space     write the skeleton project, the palette of planted findings, *)
-(*             the table of suppression forms and EVERY compatible set of   *)
-(*             at most three forms                                          *)
-(*   render    read picks (form set, present snippets, layout and syntax    *)
-(*             variants) chosen from that space, check that each is in the  *)
-(*             space, write for each one project per surface form           *)
-(*             (command line / suppressions file / XML file / inline)       *)
-(*   judge     read the findings the real binary printed for every run and  *)
-(*             write the runs that contradict Reported, and the cases whose *)
-(*             surface forms disagree with each other                       *)
-(*   baseline  judge that the unsuppressed project yields the palette       *)
-(*   laws      check the laws of the definitions in this module             *)
-(*   unitgen / unitjudge   (suppression, finding) pairs for the unit        *)
-(*             harness around SuppressionList::parseLine / addSuppression / *)
-(*             isSuppressed                                                 *)
+(*   gen     write the skeleton project, the palette of planted findings,   *)
+(*           the table of suppression forms, every compatible set of at     *)
+(*           most two (IOEnv.TRIPLES = "yes": three) forms, and the strata  *)
+(*           of (suppression, finding) pairs for the unit harness           *)
+(*   render  read picks (form set, present snippets, layout and syntax      *)
+(*           variants), check that each is in the case space and that every *)
+(*           surface form of it means the same, write for each pick one     *)
+(*           project per surface form (command line / suppressions file /   *)
+(*           XML file / inline comments)                                    *)
+(*   judge   read the findings the real binary printed for every run and    *)
+(*           write the runs that contradict Reported and the cases whose    *)
+(*           surface forms disagree; judge that the unsuppressed project    *)
+(*           reports the palette; judge the answers of the unit harness     *)
+(*           (SuppressionList::parseLine / addSuppression / isSuppressed)   *)
+(*   laws    check the laws of the definitions in this module               *)
 (***************************************************************************)
 EXTENDS Integers, Sequences, FiniteSets, TLC, Json, IOUtils, SequencesExt
 
@@ -754,4 +754,166 @@ ASSUME Mode = "judge" =>
          /\ PrintT(<<"JUDGED", Len(Obs), "BADRUNS", Cardinality(BadRuns), "BADSURF", Cardinality(BadSurf)>>)
          /\ PrintT(<<"VERDICTS", Decided[1], Decided[2], Decided[3]>>)
          /\ ndJsonSerialize(IOEnv.OUT, BadOut)
+
+(***************************************************************************)
+(* Unit level: (suppression, finding) pairs for SuppressionList.            *)
+(* A suppression is given as a text line (parseLine, the format of          *)
+(* --suppress / --suppressions-list) or as the fields the XML reader and    *)
+(* the inline comment reader fill in (id, file, line, symbol; type block    *)
+(* with its first and last line; type file; type macro with the macro       *)
+(* name).  A finding is what isSuppressed is asked about: id, file, line,   *)
+(* symbol names, names of the macros used on its line.                      *)
+(***************************************************************************)
+UIdPats   == {"zerodiv", "nullPointer", "uninitvar", "*", "zero*", "*div", "*Pointer", "null*", "z?rodiv", "zerodi", "zerodivx",
+              "?erodiv", "*o*", "**", "nullPointer*", "?", "zero**", "*z*d*", "zerodiv*", "??????v", "zero?*", "*?"}
+UFIds     == {"zerodiv", "nullPointer", "nullPointerRedundantCheck", "uninitvar", "zerodivcond", "v"}
+UFilePats == {"", "f0.c", "f1.c", "inc/h.h", "h.h", "*.c", "*.h", "f?.c", "inc/*.h", "inc/*", "**.h", "**/h.h", "inc", "in",
+              "./f0.c", "./inc/h.h", "*", "**", "i*/h.h", "inc/h.?", "inc/sub", "inc/**", "*/h.h", "f0.?", "f0.c*", "src/f0.c",
+              "inc/sub/h.h", "inc/*/h.h", "inc/?/h.h", "f0", "**f0.c"}
+UFFiles   == {"f0.c", "f1.c", "inc/h.h", "inc/sub/h.h", "f0.cpp", "xf0.c", "inc2/h.h", "src/f0.c"}
+USymPats  == {"", "p", "p*", "?", "q", "arr*"}
+UFSyms    == {<<>>, <<"p">>, <<"q", "p">>, <<"arr1">>, <<"pp">>}
+
+USup(via, text, id, file, line, sym, type, lb, le, macro) ==
+  [via |-> via, text |-> text, id |-> id, file |-> file, line |-> line, sym |-> sym, type |-> type, lb |-> lb, le |-> le, macro |-> macro]
+UText(id, file, line) == id \o (IF file = "" THEN "" ELSE ":" \o file \o (IF line = 0 THEN "" ELSE ":" \o ToString(line)))
+ULine(id, file, line, trail) == USup("line", UText(id, file, line) \o trail, id, file, line, "", "unique", 0, 0, "")
+UStruct(id, file, line, sym) == USup("struct", "", id, file, line, sym, "unique", 0, 0, "")
+UFind(id, file, line, syms, macros) == [id |-> id, file |-> file, line |-> line, syms |-> syms, macros |-> macros]
+
+UStrata == IF Mode # "gen" THEN <<>> ELSE
+  << [name |-> "id-x-file",
+      sups  |-> SetToSeq({ULine(i, f, 0, "") : i \in UIdPats, f \in UFilePats}),
+      finds |-> SetToSeq({UFind(i, f, 5, y, <<>>) : i \in UFIds, f \in UFFiles, y \in {<<>>, <<"p">>}})],
+     [name |-> "line-sym",
+      sups  |-> SetToSeq({IF y = "" THEN ULine(i, f, l, "") ELSE UStruct(i, f, l, y)
+                            : i \in {"zerodiv", "*", "zero*", "nullPointer"}, f \in {"", "f0.c", "*.c"}, l \in {0, 5, 6}, y \in USymPats}
+                         \ {ULine(i, "", l, "") : i \in UIdPats, l \in {5, 6}}),       \* a line needs a file in the text format
+      finds |-> SetToSeq({UFind(i, f, l, y, <<>>) : i \in {"zerodiv", "nullPointer"}, f \in {"f0.c", "f1.c", "inc/h.h"}, l \in {4, 5, 6}, y \in UFSyms})],
+     [name |-> "kinds",
+      sups  |-> SetToSeq({USup("struct", "", i, "f0.c", 3, y, "block", 3, 8, "") : i \in {"zerodiv", "*"}, y \in {"", "p"}}
+                         \cup {USup("struct", "", i, f, 1, "", "file", 0, 0, "") : i \in {"zerodiv", "*"}, f \in {"f0.c", "inc/h.h"}}
+                         \cup {USup("struct", "", i, "f0.c", 3, "", "macro", 0, 0, "DIV") : i \in {"zerodiv", "*", "nullPointer"}}),
+      finds |-> SetToSeq({UFind(i, f, l, y, m) : i \in {"zerodiv", "nullPointer"}, f \in {"f0.c", "inc/h.h"}, l \in {2, 3, 5, 8, 9},
+                                                y \in {<<>>, <<"p">>}, m \in {<<>>, <<"DIV">>, <<"MUL">>}})],
+     [name |-> "text-syntax",
+      sups  |-> SetToSeq({ULine(i, f, l, t) : i \in {"zerodiv", "null*"}, f \in {"f0.c", "inc/*.h"}, l \in {0, 5},
+                                              t \in {" // reason", " # reason", " // memleak:f1.c", "  # a:b:7", " //"}}
+                         \cup {ULine(i, "", 0, t) : i \in {"zerodiv", "null*"}, t \in {" // suppress all", " # 5"}}),
+      finds |-> SetToSeq({UFind(i, f, l, <<>>, <<>>) : i \in {"zerodiv", "nullPointer", "memleak", "a"}, f \in {"f0.c", "f1.c", "inc/h.h", "b"}, l \in {5, 7}})] >>
+
+\* verdict of a unit pair, from the same definitions as above
+UVerdict(s, f) ==
+  LET t   == IF s.via = "line" THEN ParseText(s.text) ELSE [id |-> s.id, file |-> s.file, line |-> s.line]
+      idm == B3(Glob(t.id, f.id))
+      sym == B3(s.sym = "" \/ \E i \in 1..Len(f.syms) : Glob(s.sym, f.syms[i]))
+  IN CASE s.type = "unique" -> And3({idm, IF t.file = "" THEN "yes" ELSE FileMatch3(t.file, f.file), B3(t.line = 0 \/ t.line = f.line), sym})
+       [] s.type = "file"   -> And3({idm, FileMatch3(t.file, f.file), sym})          \* the line of the comment does not count
+       [] s.type = "block"  -> And3({idm, FileMatch3(t.file, f.file), sym,
+                                     IF s.lb < f.line /\ f.line < s.le THEN "yes"
+                                     ELSE IF f.line < s.lb \/ f.line > s.le THEN "no" ELSE "open"})   \* the comment lines themselves
+       [] s.type = "macro"  -> IF ~(Glob(t.id, f.id) /\ \E i \in 1..Len(f.macros) : f.macros[i] = s.macro) THEN "no"
+                               ELSE IF FileMatch3(t.file, f.file) = "yes" THEN sym ELSE "open"
+
+ASSUME Mode = "gen" =>
+         /\ PrintT(<<"UNIT", [i \in 1..Len(UStrata) |-> Len(UStrata[i].sups) * Len(UStrata[i].finds)]>>)
+         /\ ndJsonSerialize(IOEnv.UOUT, UStrata)
+
+\* judge: UCASES = the strata as written by gen, UOBS = the harness answers [st, s, err, hit]
+UCases == IF Mode = "judge" THEN ndJsonDeserialize(IOEnv.UCASES) ELSE <<>>
+UObs   == IF Mode = "judge" THEN ndJsonDeserialize(IOEnv.UOBS) ELSE <<>>
+UStratum(name) == CHOOSE i \in 1..Len(UCases) : UCases[i].name = name
+UBadOf(o) ==
+  LET st  == UCases[UStratum(o.st)]
+      s   == st.sups[o.s]
+      hit == ToSet(o.hit)
+  IN IF o.err # "" THEN {[st |-> o.st, s |-> o.s, f |-> 0, sup |-> s, find |-> <<>>, expected |-> "accepted", got |-> o.err]}
+     ELSE {[st |-> o.st, s |-> o.s, f |-> j, sup |-> s, find |-> st.finds[j], expected |-> UVerdict(s, st.finds[j]), got |-> IF j \in hit THEN "yes" ELSE "no"]
+             : j \in {j \in 1..Len(st.finds) : LET v == UVerdict(s, st.finds[j]) IN (v = "yes" /\ j \notin hit) \/ (v = "no" /\ j \in hit)}}
+UBad == UNION {UBadOf(UObs[i]) : i \in 1..Len(UObs)}
+UCount(v) ==
+  LET RECURSIVE sum(_, _)
+      sum(i, acc) == IF i > Len(UObs) THEN acc
+                     ELSE LET st == UCases[UStratum(UObs[i].st)]
+                          IN sum(i + 1, acc + Cardinality({j \in 1..Len(st.finds) : UVerdict(st.sups[UObs[i].s], st.finds[j]) = v}))
+  IN sum(1, 0)
+ASSUME Mode = "judge" =>
+         /\ PrintT(<<"UNITJUDGED", Len(UObs), "BAD", Cardinality(UBad), "OPEN", UCount("open")>>)
+         /\ ndJsonSerialize(IOEnv.UBADOUT, SetToSeq(UBad))
+
+(***************************************************************************)
+(* Step "laws": laws of the definitions (they guard against a wrong spec).  *)
+(***************************************************************************)
+RECURSIVE SeqsUpTo(_, _)
+SeqsUpTo(A, n) == IF n = 0 THEN {<<>>} ELSE LET r == SeqsUpTo(A, n - 1) IN r \cup {Append(x, a) : x \in {y \in r : Len(y) = n - 1}, a \in A}
+LPats == SeqsUpTo({"a", "b", "*", "?", Sep}, 3)
+LStrs == SeqsUpTo({"a", "b", Sep}, 4)
+Subst(p, i, x) == SubSeq(p, 1, i - 1) \o x \o SubSeq(p, i + 1, Len(p))
+Ord(v) == IF v = "no" THEN 0 ELSE IF v = "open" THEN 1 ELSE 2
+
+LawGlob ==
+  /\ \A p \in LPats : (~HasWild(p)) => \A r \in LStrs : GlobC(p, r) <=> (p = r)                   \* a literal matches itself only
+  /\ \A r \in LStrs : GlobC(<<"*">>, r) <=> (\A i \in 1..Len(r) : r[i] # Sep)                     \* `*`: no separator
+  /\ \A r \in LStrs : GlobC(<<"*", "*">>, r)                                                      \* `**`: everything
+  /\ \A r \in LStrs : GlobC(<<"?">>, r) <=> (Len(r) = 1 /\ r[1] # Sep)                            \* `?`: one character
+  /\ \A p \in LPats : \A i \in 1..Len(p) : (p[i] \notin {"*", "?", Sep}) =>
+        \A r \in LStrs : GlobC(p, r) => (GlobC(Subst(p, i, <<"?">>), r) /\ GlobC(Subst(p, i, <<"*">>), r))   \* `?`, `*` match what a literal matches
+  /\ \A p \in LPats : \A i \in 1..Len(p) : p[i] = "?" => \A r \in LStrs : GlobC(p, r) => GlobC(Subst(p, i, <<"*">>), r)
+  /\ \A p \in LPats : \A i \in 1..Len(p) : p[i] = "*" => \A r \in LStrs : GlobC(p, r) => GlobC(Subst(p, i, <<"*", "*">>), r)
+
+LawFile ==
+  /\ \A f \in UFFiles : FileMatch3(f, f) = "yes" /\ FileMatch3("./" \o f, f) = "yes"
+  /\ \A p \in UFilePats \ {""} : \A f \in UFFiles : Glob(p, f) => FileMatch3(p, f) = "yes"
+  \* the examples of the manual
+  /\ FileMatch3("test", "test/somefile.cpp") = "yes" /\ FileMatch3("test", "test1.cpp") = "no"
+  /\ FileMatch3("src/*.c", "test1.c") = "no" /\ FileMatch3("src/*.c", "src/test2.c") = "yes" /\ FileMatch3("src/*.c", "src/test3.cpp") = "no"
+  /\ FileMatch3("src/test*", "src/test1.cpp") = "yes" /\ FileMatch3("src/test*", "src/file2.cpp") = "no"
+  /\ FileMatch3("src/test*", "src/test/file1.cpp") = "open"
+  /\ FileMatch3("src/file1.cpp", "src/file1.cpp") = "yes"
+  /\ FileMatch3("h.h", "inc/h.h") = "open" /\ FileMatch3("*.h", "inc/h.h") = "open" /\ FileMatch3("in", "inc/h.h") = "no"
+
+LawParse ==
+  /\ ParseText("memleak:src/file1.cpp") = [id |-> "memleak", file |-> "src/file1.cpp", line |-> 0]
+  /\ ParseText("uninitvar // suppress all uninitvar errors in all files") = [id |-> "uninitvar", file |-> "", line |-> 0]
+  /\ ParseText("uninitvar:src/file1.c:10") = [id |-> "uninitvar", file |-> "src/file1.c", line |-> 10]
+  /\ ParseText("a*:b/**.c:7 # x:y:3") = [id |-> "a*", file |-> "b/**.c", line |-> 7]
+
+\* the forms are placed where the manual's attachment rules put them
+LawForms ==
+  \A s \in Forms :
+    /\ (s.k = "std" /\ s.at # NoAt /\ s.line # 0) =>
+          (s.file = s.at.file /\ IF s.at.pos = "tail" THEN s.at.line = s.line /\ HasCode(s.file, s.line)
+                                 ELSE IsSlot(s.file, s.at.line) /\ NextCode(s.file, s.at.line) = s.line)
+    /\ (s.k = "std" /\ s.at # NoAt /\ s.line = 0) => (s.file = s.at.file /\ s.at = Own(s.file, 1) /\ IsSlot(s.file, 1))
+    /\ s.k \in {"blk", "beg"} => IsSlot(s.file, s.b)
+    /\ s.k \in {"blk", "end"} => IsSlot(s.file, s.e)
+    /\ s.k = "blk" => s.b < s.e
+    /\ s.k = "mac" => (IsSlot(s.file, s.at.line) /\ Skel(s.file)[NextCode(s.file, s.at.line)].text = "#define DIV(x) (100 / (x))")
+    /\ s.k = "two" => (Skel(s.file)[s.line].text = "{" /\ HasCode(s.file, s.line + 1))
+
+\* every surface form of a form means the form, in every syntax variant
+LawSurface ==
+  \A s \in Forms : \A v \in 0..MaxVar : \A d \in Surfaces(s) :
+     LET r == Run(<<s>>, d, v) IN s.k \in {"beg", "end"} \/ RunMeanings(r) = {Meaning(s)}
+
+\* more suppressions never show more; `*` as id matches whatever the literal id matches
+Balanced == {s \in Forms : s.k \notin {"beg", "end"}}
+LawMono ==
+  \A s, t \in Balanced :
+     /\ MustHide(Palette, {s}) \subseteq MustHide(Palette, {s, t})
+     /\ MustReport(Palette, {s, t}) \subseteq MustReport(Palette, {s})
+     /\ MustReport(Palette, {s, t}) = MustReport(Palette, {s}) \cap MustReport(Palette, {t})
+LawStar ==
+  \A s \in Forms : \A f \in Palette : Ord(Match3([s EXCEPT !.id = "*"], f, {})) >= Ord(Match3(s, f, {}))
+\* every palette finding can be told apart by some form, and is hidden by some and kept by some
+LawPalette ==
+  /\ \A f \in Palette : (\E s \in Forms : M3(s.n, f, {}) = "yes") /\ (\E s \in Forms : M3(s.n, f, {}) = "no")
+  /\ \A f, g \in Palette : f # g => Key(f) # Key(g)
+
+ASSUME Mode = "laws" =>
+         /\ LawGlob /\ PrintT(<<"LAW", "glob", Cardinality(LPats), Cardinality(LStrs)>>)
+         /\ LawFile /\ LawParse /\ PrintT(<<"LAW", "file+parse">>)
+         /\ LawForms /\ PrintT(<<"LAW", "forms", Cardinality(Forms)>>)
+         /\ LawSurface /\ PrintT(<<"LAW", "surface", Cardinality(Forms) * (MaxVar + 1)>>)
+         /\ LawMono /\ LawStar /\ LawPalette /\ PrintT(<<"LAW", "mono+star+palette", Cardinality(Balanced) * Cardinality(Balanced)>>)
 =============================================================================
